@@ -180,6 +180,13 @@ Section All.
       + exact (Hn h e He Hc0).
   Qed.
 
+  Theorem submitted_not_complete_orphan U w now t w' r :
+    wf_univ U -> pool_inv U w -> In t U ->
+    step ordP ordE w (OSubmit now t) = Some (w', r) ->
+    forall e, lookup (orphans (wst w')) (tid t) = Some e ->
+      ~ complete (wchain w') (wst w') (otx e).
+  Proof. intros WF. exact (submit_self_not_complete_orphan ordP ordE ordP_perm U WF w now t w' r). Qed.
+
   Theorem run_never_stuck ops w : exists w', run ordP ordE w ops = Some w'.
   Proof. apply (run_total ordP ordE ordP_perm). Qed.
 End All.
